@@ -8,6 +8,7 @@ struct WDrv DRV;
 uint32_t    W_NOW;
 void (*w_lock_hook)(int lock);
 void (*w_send_hook)(const WFrame *f);
+void (*w_prehash)(int phase);
 
 /* ------------------------------------------------------------------ regions */
 #define W_MAX_REG 64
@@ -51,6 +52,7 @@ void w_hash(uint64_t out[2])
 {
     uint64_t a = 0x9E3779B97F4A7C15ull, b = 0xC2B2AE3D27D4EB4Full;
     uint8_t  save[16][64]; /* saved content of no-hash ranges (each <= 64 bytes) */
+    if (w_prehash) w_prehash(0);
     for (int i = 0; i < NNOH; i++) {
         if (NOH[i].n > 64) { fprintf(stderr, "world: nohash range too large\n"); exit(2); }
         memcpy(save[i], NOH[i].p, NOH[i].n); memset(NOH[i].p, 0, NOH[i].n);
@@ -63,6 +65,7 @@ void w_hash(uint64_t out[2])
         if (n) { uint64_t w = 0; memcpy(&w, p, n); a = mix(a, w, 0xFF51AFD7ED558CCDull); b = mix(b, w, 0xC4CEB9FE1A85EC53ull); }
     }
     for (int i = 0; i < NNOH; i++) memcpy(NOH[i].p, save[i], NOH[i].n);
+    if (w_prehash) w_prehash(1);
     a ^= a >> 32; b ^= b >> 31;
     out[0] = a; out[1] = b;
 }
@@ -100,6 +103,7 @@ void w_reset(uint32_t freq)
     W_NOW = 0;
     w_lock_hook = 0;
     w_send_hook = 0;
+    w_prehash = 0;
     W_REG(DRV);
     W_REG_NOHASH(W_NOW);
 }
@@ -190,6 +194,7 @@ void w_rx(CO_NODE *node, uint32_t id, uint8_t dlc, const uint8_t *d)
     DRV.rx_pending = 1;
     CONodeProcess(node);
     DRV.rx_pending = 0;        /* a closed interface must not leave the frame queued for the next step */
+    memset(&DRV.rx, 0, sizeof DRV.rx);
 }
 
 void w_rx8(CO_NODE *node, uint32_t id, uint8_t b0, uint8_t b1, uint8_t b2, uint8_t b3,
